@@ -445,7 +445,7 @@ class SyncedEnforcer:
         with self._rl:
             return self._e.has_permission_for_user(user, *permission)
 
-    def get_implicit_roles_for_user(self, name, *domain):
+    def get_implicit_roles_for_user(self, name, domain=""):
         """
         gets implicit roles that a user has.
         Compared to get_roles_for_user(), this function retrieves indirect roles besides direct roles.
@@ -457,9 +457,9 @@ class SyncedEnforcer:
         But get_implicit_roles_for_user("alice") will get: ["role:admin", "role:user"].
         """
         with self._rl:
-            return self._e.get_implicit_roles_for_user(name, *domain)
+            return self._e.get_implicit_roles_for_user(name, domain)
 
-    def get_implicit_permissions_for_user(self, user, *domain, filter_policy_dom=True):
+    def get_implicit_permissions_for_user(self, user, domain="", filter_policy_dom=True):
         """
         gets implicit permissions for a user or role.
         Compared to get_permissions_for_user(), this function retrieves permissions for inherited roles.
@@ -472,9 +472,9 @@ class SyncedEnforcer:
         But get_implicit_permissions_for_user("alice") will get: [["admin", "data1", "read"], ["alice", "data2", "read"]].
         """
         with self._rl:
-            return self._e.get_implicit_permissions_for_user(user, *domain, filter_policy_dom=filter_policy_dom)
+            return self._e.get_implicit_permissions_for_user(user, domain, filter_policy_dom)
 
-    def get_named_implicit_permissions_for_user(self, ptype, user, *domain, filter_policy_dom=True):
+    def get_named_implicit_permissions_for_user(self, ptype, user, domain="", filter_policy_dom=True):
         """
         gets implicit permissions for a user or role by named policy.
         Compared to get_permissions_for_user(), this function retrieves permissions for inherited roles.
@@ -487,9 +487,7 @@ class SyncedEnforcer:
         But get_implicit_permissions_for_user("alice") will get: [["admin", "data1", "read"], ["alice", "data2", "read"]].
         """
         with self._rl:
-            return self._e.get_named_implicit_permissions_for_user(
-                ptype, user, *domain, filter_policy_dom=filter_policy_dom
-            )
+            return self._e.get_named_implicit_permissions_for_user(ptype, user, domain, filter_policy_dom)
 
     def get_implicit_users_for_permission(self, *permission):
         """
